@@ -29,6 +29,13 @@
 #ifndef NMAX
 #define NMAX 200          /* request sizes 0..NMAX: all four classes (8,16,32,64), class boundaries, the small/large threshold (64|65), large frames of 2..4 pages */
 #endif
+#ifndef PREFILL
+#define PREFILL 0        /* blocks of PRESIZE bytes allocated before the K operations (handles K..K+PREFILL-1): reaches "every slab of the class is exactly full" */
+#endif
+#ifndef PRESIZE
+#define PRESIZE 64
+#endif
+#define KH (K + PREFILL)
 typedef uint64_t addr_t;
 #define PAGE 64u
 #define SB 512u
@@ -135,14 +142,14 @@ void vp_mutex_lock(uint64_t m) { VP_ASSERT(RD4(m) == 0, "lock() of a mutex that 
 void vp_mutex_unlock(uint64_t m) { VP_ASSERT(RD4(m) == 1, "unlock() of a mutex that is not held"); WR4(m, 0); locks_held--; }
 
 /* ------------------------------------------------------------------ reference bookkeeping */
-addr_t hp[K]; uint64_t hreq[K], hsize[K]; int hlive[K], hcls[K]; uint32_t hpatn;
+addr_t hp[KH]; uint64_t hreq[KH], hsize[KH]; int hlive[KH], hcls[KH]; uint32_t hpatn;
 int peak_live[5], cur_live[5], slab_maps[5];          /* per class 0..3 (+4 = large) */
 uint64_t pages_expected;
 static int cls_of_size(uint64_t sz) { return sz == 8 ? 0 : sz == 16 ? 1 : sz == 32 ? 2 : sz == 64 ? 3 : 4; }     /* from the reported size: concrete on every path */
 static uint64_t cls_size(int c) { return 8u << c; }
 static uint32_t pat(int i, uint64_t w) { return 0xA5000000u ^ ((uint32_t)i << 16) ^ (uint32_t)(w * 2654435761u >> 8); }
 int releasing = -1;      /* handle currently being freed / moved by the running call: its region may legitimately be unmapped */
-int nblk_live_in(addr_t base, addr_t len) { int n = 0; for(int i = 0; i < K; i++) if(hlive[i] && i != releasing && hp[i] >= base && hp[i] < base + len) n++; return n; }
+int nblk_live_in(addr_t base, addr_t len) { int n = 0; for(int i = 0; i < KH; i++) if(hlive[i] && i != releasing && hp[i] >= base && hp[i] < base + len) n++; return n; }
 static void fill(int i) { for(uint64_t w = 0; w < hsize[i] / 4; w++) WR4(hp[i] + 4 * w, pat(i, w)); }
 static void check_content(int i, uint64_t bytes, addr_t at, const char *unused) { (void)unused; for(uint64_t w = 0; w < bytes / 4; w++) VP_ASSERT(RD4(at + 4 * w) == pat(i, w), "contents of a live block changed (bytes owned by the user were modified by the pool)"); }
 static int spp[4]; static void init_spp(void) { for(int c = 0; c < 4; c++) { uint64_t it = cls_size(c), ov = 0; while(ov < HDR_SLAB) ov += it; spp[c] = (int)((SB - ov) / it); } }   /* header overhead rounded up to a multiple of the item size */
@@ -163,7 +170,7 @@ static void check_block(int i) {
 	uint32_t ty = RD4(fr + OFF_TYPE);
 	VP_ASSERT(ty == 1 || ty == 2, "frame header of a live block is corrupt");
 	VP_ASSERT(p >= fr + (ty == 1 ? HDR_SLAB : HDR_FRAME), "block overlaps the allocator's own frame header");
-	for(int j = 0; j < K; j++) if(j < i && hlive[j]) VP_ASSERT(p + sz <= hp[j] || hp[j] + hsize[j] <= p, "two live blocks overlap");
+	for(int j = 0; j < KH; j++) if(j < i && hlive[j]) VP_ASSERT(p + sz <= hp[j] || hp[j] + hsize[j] <= p, "two live blocks overlap");
 	check_content(i, sz, p, 0);
 #if POLICY == 3
 	for(uint64_t b = 0; b < sz; b++) VP_ASSERT(!(b < hreq[i]) | !is_poisoned(p + b), "a requested byte of a live block is poisoned");
@@ -182,7 +189,7 @@ static void check_slabs(void) {
 			VP_ASSERT(s < slots_per_slab(c), "free list longer than the number of slots (cycle or duplicate)"); if(s >= slots_per_slab(c)) break;
 			VP_ASSERT(o >= a0 && o + it <= a0 + len && ((o - a0) % it) == 0, "free-list entry outside the slab's object area or misaligned");
 			{ uint64_t ix = (o - a0) / it; if(ix < 64) { VP_ASSERT(!mark[ix], "slot appears twice in the free list"); mark[ix] = 1; } }
-			for(int j = 0; j < K; j++) if(hlive[j]) VP_ASSERT(hp[j] != o, "a live block is also on the free list");
+			for(int j = 0; j < KH; j++) if(hlive[j]) VP_ASSERT(hp[j] != o, "a live block is also on the free list");
 #if POLICY == 3
 			for(uint64_t b = 8; b < it; b++) VP_ASSERT(is_poisoned(o + b), "a free small block is not poisoned beyond the allocator's link word");
 #endif
@@ -194,10 +201,10 @@ static void check_slabs(void) {
 static void check_all(void) {
 	VP_ASSERT(locks_held == 0 && RD4(POOL + POOL_OFF_TREEMX) == 0, "a pool mutex is still held after the call returned");
 	for(int b = 0; b < 4; b++) VP_ASSERT(RD4(POOL + POOL_OFF_BKTS + BKT_SIZE * b) == 0, "a bucket mutex is still held after the call returned");
-	for(int i = 0; i < K; i++) if(hlive[i]) check_block(i);
+	for(int i = 0; i < KH; i++) if(hlive[i]) check_block(i);
 	check_slabs();
 	VP_ASSERT(pool_used_pages(POOL) == pages_expected, "used-page counter drifted (did not rise/fall by the size of the region taken/returned)");
-	int large_live = 0; for(int i = 0; i < K; i++) if(hlive[i] && hcls[i] == 4) large_live++;
+	int large_live = 0; for(int i = 0; i < KH; i++) if(hlive[i] && hcls[i] == 4) large_live++;
 	int large_maps = 0; for(int m = 0; m < MAXMAPS; m++) if(m < nmaps && maps[m].live) { addr_t fr = (maps[m].base + SB - 1) & ~(addr_t)(SB - 1); if(RD4(fr + OFF_TYPE) == 2) large_maps++; }
 	VP_ASSERT(large_maps == large_live, "a large block's reservation stayed mapped after the block was freed (or was unmapped while live)");
 	for(int c = 0; c < 4; c++) { int sp = slots_per_slab(c); VP_ASSERT(slab_maps[c] <= (peak_live[c] + sp - 1) / sp, "more slabs mapped for a class than ceil(peak live blocks / blocks per slab): freed memory was not reused"); }
@@ -226,7 +233,7 @@ static void reset_all(void) {
 #endif
 	for(int i = 0; i < MAXMAPS + 1; i++) { maps[i].base = 0; maps[i].len = 0; maps[i].live = 0; }
 	nmaps = 0; map_calls = 0; locks_held = 0; map_failed_now = 0; nsh = 0; pages_expected = 0;
-	for(int i = 0; i < K; i++) { hp[i] = 0; hreq[i] = 0; hsize[i] = 0; hlive[i] = 0; hcls[i] = 0; }
+	for(int i = 0; i < KH; i++) { hp[i] = 0; hreq[i] = 0; hsize[i] = 0; hlive[i] = 0; hcls[i] = 0; }
 	for(int c = 0; c < 5; c++) { peak_live[c] = 0; cur_live[c] = 0; slab_maps[c] = 0; }
 }
 int scenarios_run;
@@ -234,7 +241,10 @@ static void scenario(const int *sel, int fail0) {
 	reset_all();
 	init_spp();
 	pool_init(POOL, POL);
-	fail_at[0] = fail0; fail_at[1] = -1;
+	fail_at[0] = -1; fail_at[1] = -1;
+	for(int j = 0; j < PREFILL; j++) { int mb = nmaps; addr_t p = pool_alloc(POOL, PRESIZE); VP_ASSERT(p != 0, "prefill allocation failed"); if(p) { note_alloc(K + j, p, PRESIZE, mb); fill(K + j); } }
+	if(PREFILL) check_all();
+	fail_at[0] = fail0 < 0 ? -1 : fail0 + map_calls;      /* failure positions count from the first operation of the scenario proper */
 	for(int s = 0; s < K; s++) {
 		int op = OS[s], h = HS[s]; uint64_t n = SZ[sel[s]];
 		int maps_before = nmaps; map_failed_now = 0;
